@@ -92,7 +92,11 @@ class TeamRun:
 
                     def marked():
                         run.sub.append(["cbegin", run.stats()])
-                        work()
+                        try:
+                            work()
+                        except BaseException:
+                            run.sub.append(["cexc", 0])    # this unit of coordinator work raised
+                            raise
                     real.do(marked)
 
                 def quit(p):
@@ -103,7 +107,13 @@ class TeamRun:
                     return False
             self.coord = LockProxy()
 
+        self.fail_next = False     # the next worker creation fails the way a thread start fails
+
         def make_worker(startThread, queue):
+            if run.fail_next:
+                run.fail_next = False
+                run.sub.append(["createfail", 0])
+                raise RuntimeError("can't start new thread")
             w = Proxy(len(run.workers) + 1)
             run.workers.append(w)
             run.sub.append(["create", w.idx])
@@ -138,7 +148,12 @@ class TeamRun:
             res = ("true" if r else "false") if boolres else "ok"
         except BaseException as ex:
             x = type(ex).__name__
-            res = x if x == "AlreadyQuit" and not boolres else "EXC"
+            if ["cexc", 0] in self.sub:
+                # raised by coordinator work that ran inline: attributed to that coordinator step (split_inline)
+                res = "true" if boolres else "ok"
+                x = ""
+            else:
+                res = x if x == "AlreadyQuit" and not boolres else "EXC"
             if res == "EXC":
                 self.sub.append(["exc", 0])
         ev = {"e": e, "res": res, "n": n, "raised": raised, "sub": [list(s) for s in self.sub], "st": self.stats()}
@@ -149,6 +164,9 @@ class TeamRun:
     def apply(self, op):
         """Perform one op on the real objects; returns the event (None if the op names a worker that does not exist)."""
         k = op[0]
+        if k == "failnext":
+            self.fail_next = True
+            return None
         if k == "do":
             self.nT += 1
             t = self.nT
@@ -191,7 +209,10 @@ class TeamRun:
 
 def split_inline(e):
     """Cut an event recorded with the LockWorker coordinator at its "cbegin" markers into the call / worker step
-    itself and the coordinator steps that ran inline."""
+    itself and the coordinator steps that ran inline (a step whose work raised gets res "exc").  `fin` marks
+    the last event of the harness operation."""
+    if e is None:
+        return []
     segs = [[]]
     sts = []
     for s in e["sub"]:
@@ -203,7 +224,12 @@ def split_inline(e):
     sts.append(e["st"])
     out = [dict(e, sub=segs[0], st=sts[0])]
     for i in range(1, len(segs)):
-        out.append({"e": "coord", "res": "true", "n": 0, "raised": False, "sub": segs[i], "st": sts[i]})
+        failed = ["cexc", 0] in segs[i]
+        out.append({"e": "coord", "res": "exc" if failed else "true", "n": 0, "raised": False,
+                    "sub": [x for x in segs[i] if x[0] != "cexc"], "st": sts[i]})
+    for x in out:
+        x["fin"] = False
+    out[-1]["fin"] = True
     return out
 
 
@@ -215,13 +241,15 @@ def run_history(limit, ops, hashes=None, coordinator="memory"):
         for op in ops:
             if coordinator != "memory" and op[0] == "coord":
                 continue
+            if coordinator == "memory" and op[0] == "failnext":
+                continue
             e = r.apply(tuple(op))
-            if e is not None:
+            if e is not None or op[0] == "failnext":
                 ev += split_inline(e)
                 done.append(list(op))
     finally:
         r.close()
-    return {"cfg": {"limit": limit}, "ops": done, "hashes": {str(k): v for k, v in (hashes or {}).items()},
+    return {"cfg": {"limit": limit, "inline": coordinator != "memory"}, "ops": done, "hashes": {str(k): v for k, v in (hashes or {}).items()},
             "coordinator": coordinator, "ev": ev}
 
 
@@ -265,7 +293,7 @@ def _cell_ok(c):
 
 def state_key(r, used):
     return (absval(r.team, frozenset(), None), tuple(absval(w, frozenset(), None) for w in r.workers),
-            r.limit, tuple(r.ran), tuple(sorted(used.items())))
+            r.limit, r.fail_next, tuple(r.ran), tuple(sorted(used.items())))
 
 
 def explore(limit, budget, raises=(0, 2, 1, 3), max_runs=None, max_depth=40, coordinator="memory"):
@@ -290,6 +318,8 @@ def explore(limit, budget, raises=(0, 2, 1, 3), max_runs=None, max_depth=40, coo
             ops += [("setlimit", L) for L in (0, 1, 2) if L != r.limit]
         if used["quit"] < budget.get("quit", 0):
             ops.append(("quit",))
+        if used["failnext"] < budget.get("failnext", 0) and not r.fail_next:
+            ops.append(("failnext",))
         if coordinator == "memory":
             ops.append(("coord",))
         ops += [("work", w) for w in range(1, len(r.workers) + 1)]
@@ -303,7 +333,7 @@ def explore(limit, budget, raises=(0, 2, 1, 3), max_runs=None, max_depth=40, coo
         r = TeamRun(limit, None, coordinator)
         ev = []
         path = []
-        used = dict(do=0, grow=0, shrink=0, setlimit=0, quit=0)
+        used = dict(do=0, grow=0, shrink=0, setlimit=0, quit=0, failnext=0)
         try:
             dead = False
             for op in prefix:
@@ -312,7 +342,7 @@ def explore(limit, budget, raises=(0, 2, 1, 3), max_runs=None, max_depth=40, coo
                 path.append(list(op))
                 if op[0] in used:
                     used[op[0]] += 1
-                if op[0] in ("coord", "work") and e["res"] == "false":
+                if op[0] in ("coord", "work") and e is not None and e["res"] == "false":
                     dead = True       # a perform() with nothing to do: state unchanged, do not extend
             while not dead and len(path) < max_depth:
                 k = state_key(r, used)
@@ -330,11 +360,11 @@ def explore(limit, budget, raises=(0, 2, 1, 3), max_runs=None, max_depth=40, coo
                 path.append(list(op))
                 if op[0] in used:
                     used[op[0]] += 1
-                if op[0] in ("coord", "work") and e["res"] == "false":
+                if op[0] in ("coord", "work") and e is not None and e["res"] == "false":
                     break
         finally:
             r.close()
-        traces.append({"cfg": {"limit": limit}, "ops": path, "hashes": {}, "coordinator": coordinator, "ev": ev})
+        traces.append({"cfg": {"limit": limit, "inline": coordinator != "memory"}, "ops": path, "hashes": {}, "coordinator": coordinator, "ev": ev})
     return traces, len(seen), complete
 
 
@@ -357,6 +387,8 @@ def random_history(rng, n):
             ops.append(("setlimit", rng.choice([0, 1, 2, 3])))
         elif r < 0.39:
             ops.append(("quit",))
+        elif r < 0.42:
+            ops.append(("failnext",))
         elif r < 0.70:
             ops.append(("coord",))
         else:
@@ -429,7 +461,8 @@ def check_team(ctx):
         ctx.log("explored real Team limit=%d budget=%s: %d runs, %d states, complete=%s" % (limit, budget, len(ts), ns, complete))
         traces += ts
     # the same Team with the real LockWorker as coordinator (coordinator work runs inline in the caller)
-    for limit, budget in [(1, dict(do=2, shrink=1, quit=1)), (2, dict(do=2, grow=1, quit=1)), (0, dict(do=2, setlimit=1, grow=1, quit=1))]:
+    for limit, budget in [(1, dict(do=2, shrink=1, quit=1)), (2, dict(do=2, grow=1, quit=1)), (0, dict(do=2, setlimit=1, grow=1, quit=1)),
+                          (2, dict(do=3, failnext=1, quit=1)), (2, dict(do=2, grow=1, failnext=1, quit=1))]:
         ts, ns, complete = explore(limit, budget, max_runs=ctx.pick(1500, 4000), coordinator="lock")
         all_complete = all_complete and complete
         exh.append(dict(limit=limit, budget=budget, coordinator="LockWorker", runs=len(ts), states=ns, complete=complete))
